@@ -500,7 +500,12 @@ func (o *qOracle) validateEnqueue(step int, prev, next Snap, r resolvedOp, res Q
 			want.Next = want.Recv
 		}
 		if !eqMsg(want, m) {
-			return fail("C02,C07,C15", "stored-differs", step, "enqueued %s stored as %s", fmtMsg(want), fmtMsg(m))
+			props := "C02,C07,C15"
+			if want.Next != m.Next {
+				// stored with another due time than the sender gave: offered too early, or kept back
+				props += ",C05"
+			}
+			return fail(props, "stored-differs", step, "enqueued %s stored as %s", fmtMsg(want), fmtMsg(m))
 		}
 		explained[id] = true
 		if replaced != nil {
